@@ -15,7 +15,7 @@ def run(prop, tier, rng):
     """-> (violations, extra, mc-stats, trace-stats)"""
     violations = []
     mcs = dict(distinct=0, generated=0)
-    for cfg in ("Flag.cfg", "Flag_live.cfg"):
+    for cfg in (("Flag.cfg", "Flag_live.cfg") if tier == "quick" else ("Flag_big.cfg", "Flag_live.cfg")):
         mc = vlib.tlc_check("Flag.tla", cfg, "mc_flag_" + cfg[:-4], workers=6, timeout=1200)
         mcs["distinct"] += mc["distinct"]
         mcs["generated"] += mc["generated"]
